@@ -13,12 +13,14 @@ import (
 	"net"
 	"os"
 	"testing"
+	"unsafe"
 
 	"golang.org/x/sys/unix"
 
 	"github.com/panjf2000/gnet/v2/internal/verifmc/mcsys"
 	"github.com/panjf2000/gnet/v2/internal/verifmc/sched"
 	"github.com/panjf2000/gnet/v2/internal/verifmc/seqmc"
+	"github.com/panjf2000/gnet/v2/pkg/pool/byteslice"
 )
 
 // ---- C15 live -------------------------------------------------------------------------------------
@@ -365,6 +367,106 @@ func addrWorld(kind string) *world {
 	return w
 }
 
+// clientZoneWorld: the addresses of a connection enrolled through a Client are the net.Conn's: the
+// zone strings inside them belong to package net (its process-wide zone cache) or to the caller
+// (the string it dialled with). The framework must not hand that memory to its byte-slice pool
+// when the connection is released: the next user of the pool would overwrite the zone name under
+// every other address of the process ("stay correct ... while many other connections are opened
+// and closed"). No byte is written here: pool hand-outs are compared with the zone strings by
+// address.
+func clientZoneWorld(et bool) sched.Scenario {
+	w := newWorld("addr-live/client-linklocal")
+	cw := &clientWorld{world: w}
+	cw.body = func(cw *clientWorld) {
+		ip, zone, _ := linkLocal()
+		opts := []Option{WithLogger(nopLogger{}), WithNumEventLoop(1)}
+		if et {
+			opts = append(opts, WithEdgeTriggeredIO(true))
+		}
+		cli, err := NewClient(&mcHandler{w}, opts...)
+		if err != nil {
+			w.violate("client:new", "NewClient: %v", err)
+			return
+		}
+		if err := cli.Start(); err != nil {
+			w.violate("client:start", "Client.Start: %v", err)
+			return
+		}
+		// a connected UDP socket from the link-local address to itself: nobody has to answer
+		nc, err := net.DialUDP("udp6", &net.UDPAddr{IP: ip, Zone: zone}, &net.UDPAddr{IP: ip, Port: 9, Zone: zone})
+		if err != nil {
+			w.obs = append(w.obs, "no-link-local-socket")
+			w.runErr = cli.Stop()
+			return
+		}
+		lz := nc.LocalAddr().(*net.UDPAddr).Zone
+		rz := nc.RemoteAddr().(*net.UDPAddr).Zone
+		foreign := func(b []byte) string {
+			if len(b) == 0 {
+				return ""
+			}
+			if len(lz) > 0 && &b[:1][0] == unsafe.StringData(lz) {
+				return "LocalAddr (package net's zone cache)"
+			}
+			if len(rz) > 0 && &b[:1][0] == unsafe.StringData(rz) {
+				return "RemoteAddr (the address the caller dialled)"
+			}
+			return ""
+		}
+		c, err := cli.Enroll(nc)
+		if err != nil {
+			w.violate("client:enroll", "Client.Enroll(udp6 link-local): %v", err)
+			return
+		}
+		sched.BlockUntil(func() bool { return len(w.conns) > 0 && w.conns[0].opens > 0 })
+		ci := w.conns[0]
+		if la, ok := c.LocalAddr().(*net.UDPAddr); !ok || la.Zone != zone || !la.IP.Equal(ip) {
+			w.violate("addr:local", "client connection reports LocalAddr %v, the socket is bound to %v%%%s", c.LocalAddr(), ip, zone)
+		}
+		if os.Getenv("MC_ZONEDBG") != "" {
+			gl, _ := c.LocalAddr().(*net.UDPAddr)
+			gr, _ := c.RemoteAddr().(*net.UDPAddr)
+			fmt.Printf("ZONEDBG lz=%p rz=%p gnet-local=%p(%q) gnet-remote=%p(%q)\n", unsafe.StringData(lz), unsafe.StringData(rz), unsafe.StringData(gl.Zone), gl.Zone, unsafe.StringData(gr.Zone), gr.Zone)
+		}
+		el := c.EventLoop()
+		_ = c.Close()
+		sched.BlockUntil(func() bool { return ci.closes > 0 })
+		sched.WaitIdle()
+		// whoever takes small buffers from the shared pool next, on the loop or elsewhere
+		churn := func(where string) {
+			var held [][]byte
+			for _, n := range []int{len(lz), len(rz)} {
+				for r := 0; n > 0 && r < 4; r++ {
+					b := byteslice.Get(n)
+					if who := foreign(b); who != "" {
+						w.violate("addr:zone-pooled", "after the client connection was closed, byteslice.Get(%d) (%s) hands out the memory of the zone string %q of the net.Conn's %s: the framework returned memory owned by package net / the caller to its pool", n, where, zone, who)
+					}
+					held = append(held, b)
+				}
+			}
+			for _, b := range held {
+				if foreign(b) == "" {
+					byteslice.Put(b)
+				}
+			}
+		}
+		ran := false
+		_ = el.Execute(context.Background(), runnable{func() { churn("on the event loop"); ran = true }})
+		sched.BlockUntil(func() bool { return ran })
+		churn("on another goroutine")
+		w.runErr = cli.Stop()
+	}
+	w.checks = append(w.checks, checkEnd, func(w *world, out *sched.Outcome) (string, string) {
+		for _, ci := range w.conns {
+			if ci.opens != 1 || ci.closes != 1 || len(ci.afterClose) > 0 {
+				return fmt.Sprintf("client connection #%d: OnOpen %d times, OnClose %d times, after close: %v", ci.id, ci.opens, ci.closes, ci.afterClose), "client:lifecycle"
+			}
+		}
+		return "", ""
+	})
+	return cw
+}
+
 func TestMC_C17live(t *testing.T) {
 	var cfgs []sched.Config
 	kinds := []string{"unix", "tcp4", "tcp6"}
@@ -375,6 +477,13 @@ func TestMC_C17live(t *testing.T) {
 		k := k
 		cfgs = append(cfgs, sched.Config{Property: "C17", Name: "addr-live/" + k, Bounds: engineBounds(1, 2, 0), Horizon: 40000, Deadline: seqmc.Deadline(), DelayBounded: true, TolerateNondeterminism: k != "unix",
 			New: func() sched.Scenario { return addrWorld(k) }})
+	}
+	if ip, _, _ := linkLocal(); ip != nil {
+		for _, et := range []bool{false, true} {
+			et := et
+			cfgs = append(cfgs, sched.Config{Property: "C17", Name: "addr-live/client-linklocal/" + map[bool]string{false: "LT", true: "ET"}[et], Bounds: engineBounds(1, 2, 0), Horizon: 40000, Deadline: seqmc.Deadline(), DelayBounded: true,
+				New: func() sched.Scenario { return clientZoneWorld(et) }})
+		}
 	}
 	runEngineCheck(t, "C17", cfgs, func(name string) *sched.Config {
 		for i := range cfgs {
